@@ -13,7 +13,14 @@ const MAX_INLINE: usize = 42;
 fn from_bytes_total<const N: usize>() {
     let b: [u8; N] = kani::any();
     let r = PeerId::from_bytes(&b);
-    let well_formed = N >= 2 && b[1] as usize == N - 2 && b[1] < 0x80;
+    // Canonical PeerId encodings have single-byte code and size varints (code 0x00 / 0x12,
+    // digest <= 64 bytes).  Inputs that spell either varint with several bytes are a class
+    // of their own (see known_findings.txt: a 10-byte varint whose last byte overflows u64
+    // is silently truncated by the varint reader underneath).
+    if N >= 2 && (b[0] >= 0x80 || b[1] >= 0x80) {
+        assert!(r.is_err(), "a multi-byte (non-canonical or overflowing) code or size varint is rejected");
+    }
+    let well_formed = N >= 2 && b[0] < 0x80 && b[1] as usize == N - 2 && b[1] < 0x80;
     let identity_ok = well_formed && b[0] == 0x00 && N - 2 <= MAX_INLINE;
     let sha256_ok = well_formed && b[0] == 0x12 && N - 2 == 32;
     let sha256_odd = well_formed && b[0] == 0x12 && N - 2 != 32; // left open
